@@ -387,3 +387,21 @@ def _r5(repo, L):
         elif isinstance(argv, ast.Name):
             ok2 = True
     L.check(ok2, "R5", cli.short + ":order", "statistics read from the builder's dictionary before output renaming", why2, cli.loc())
+    # only scaffolds that have rows are registered (an emptied haplotig result must not be counted)
+    from ..flow import PathEnum, cond_facts
+    from .keys import fuse_site
+
+    f, loop, var, key_expr, ctor, call = fuse_site(repo)
+    ok3, why3 = True, ""
+    for p in PathEnum((0, 1), exc_edges=False).block(loop.body):
+        reg = None
+        for i, e in enumerate(p.events):
+            if e.kind in ("stmt", "cond") and any(x is call for x in ast.walk(e.node)):
+                reg = i
+                break
+        if reg is None:
+            continue
+        nonempty = any(e.kind == "cond" and any(norm(t) == f"{var}.rows" and v for t, v in cond_facts(e.node, e.val)) for e in p.events[:reg])
+        if not nonempty:
+            ok3, why3 = False, "a build scaffold is registered before (or without) the test that it still has rows: a haplotig result emptied by the overhang resolution becomes a rowless H_n scaffold that is counted as a haplotig removal although nothing is written for it"
+    L.check(ok3, "R5", f.short + ":non-empty", "only scaffolds that still have rows are registered and counted", why3, f.loc(call))
